@@ -18,6 +18,7 @@ import (
 	"sort"
 	"strconv"
 	"strings"
+	"time"
 
 	"github.com/wader/fq/internal/verif/core"
 	"github.com/wader/fq/internal/verif/corpus"
@@ -477,7 +478,8 @@ type CorpusOpts struct {
 	MaxSize   int64 // bytes, 0: no limit
 	MaxValues int   // values per tree handed to the driver as $c.max, 0: no limit
 	// Truncations: intact plus prefixes len-1, len/2 and the start of the last top
-	// level field; More adds len/4, 3len/4 and up to 8 more top level field starts.
+	// level field; More adds len/4, 3len/4 and up to 8 more top level field starts
+	// (for trees of at most 20000 values).
 	More bool
 }
 
@@ -486,16 +488,27 @@ type CorpusOpts struct {
 type TopStartsFn func(t *Tree) []int64
 
 // WalkCorpus enumerates files x {probe, own formats} x {intact, truncations}, sharded
-// by file index. fn is called for every tree in order (intact first).
-func (w *Walker) WalkCorpus(o CorpusOpts, tops TopStartsFn, fn func(*Tree)) bool {
+// by file index. fn is called for every tree in order (intact first). until (zero:
+// the run's deadline) is this part's share of the time budget.
+func (w *Walker) WalkCorpus(o CorpusOpts, tops TopStartsFn, until time.Time, fn func(*Tree)) bool {
 	r := w.R
 	files, skipped := corpus.Files(r.Repo, o.MaxSize)
 	if r.ShardIdx == 0 {
 		r.Extra("corpus_files", len(files))
 		r.Extra("corpus_files_skipped_by_size", skipped)
 	}
+	expired := func() bool {
+		return r.Expired() || (!until.IsZero() && time.Now().After(until))
+	}
 	only := os.Getenv("VERIF_FILE")
 	complete := true
+	size := func(t *Tree) int {
+		if a, ok := t.Out.([]any); ok {
+			return len(a)
+		}
+		return 1
+	}
+files:
 	for fi := range files {
 		if !r.Mine(int64(fi)) {
 			continue
@@ -504,8 +517,8 @@ func (w *Walker) WalkCorpus(o CorpusOpts, tops TopStartsFn, fn func(*Tree)) bool
 		if only != "" && !strings.Contains(f.Path, only) {
 			continue
 		}
-		if r.Expired() {
-			r.NotExhaustive("deadline during corpus enumeration")
+		if expired() {
+			r.NotExhaustive("deadline (or this part's share of it) during corpus enumeration")
 			complete = false
 			break
 		}
@@ -515,30 +528,27 @@ func (w *Walker) WalkCorpus(o CorpusOpts, tops TopStartsFn, fn func(*Tree)) bool
 		if opts != nil {
 			r.Count("corpus_files_with_fqtest_options", 1)
 		}
-		var intact []*Tree
+		type pendingVar struct {
+			t   *Tree
+			est int
+		}
+		var vars []pendingVar
 		for _, fm := range formats {
+			// one tree at a time: the values of an Eval are alive together
 			t, _ := BuildCorpus(r.Repo, TreeCase{Kind: "corpus", File: f.Path, Format: fm, Mut: "intact", Opts: opts}, f.Data)
-			intact = append(intact, t)
-		}
-		if len(f.Data) > 1<<20 {
-			for _, t := range intact {
-				w.EvalTrees([]*Tree{t}, false, o.MaxValues)
-			}
-		} else {
-			w.EvalTrees(intact, false, o.MaxValues)
-		}
-		var vars []*Tree
-		for _, t := range intact {
+			w.EvalTrees([]*Tree{t}, false, o.MaxValues)
 			fn(t)
+			nvals := size(t)
 			n := len(f.Data)
 			cand := []int{n - 1, n / 2}
-			if o.More {
+			more := o.More && nvals <= 20000
+			if more {
 				cand = append(cand, n/4, 3*n/4)
 			}
 			if tops != nil {
 				st := tops(t)
 				lim := 1
-				if o.More {
+				if more {
 					lim = 9
 				}
 				for i := len(st) - 1; i >= 0 && lim > 0; i-- {
@@ -549,29 +559,38 @@ func (w *Walker) WalkCorpus(o CorpusOpts, tops TopStartsFn, fn func(*Tree)) bool
 					}
 				}
 			}
+			t.Out, t.Batch = nil, nil
 			seen := map[int]bool{}
 			for _, at := range cand {
 				if at <= 0 || at >= n || seen[at] {
 					continue
 				}
 				seen[at] = true
-				v, _ := BuildCorpus(r.Repo, TreeCase{Kind: "corpus", File: f.Path, Format: t.Case.Format, Mut: "trunc", At: at, Opts: opts}, f.Data)
-				vars = append(vars, v)
+				v, _ := BuildCorpus(r.Repo, TreeCase{Kind: "corpus", File: f.Path, Format: fm, Mut: "trunc", At: at, Opts: opts}, f.Data)
+				vars = append(vars, pendingVar{v, nvals})
 			}
 		}
 		r.Case(int64(fi), f.Path+" (truncations)")
-		// bounded memory: the trees of one Eval are alive together
-		chunk := 16
-		if len(f.Data) > 0 && (1<<20)/len(f.Data) < chunk {
-			chunk = max(1, (1<<20)/len(f.Data))
-		}
-		for i := 0; i < len(vars); i += chunk {
-			part := vars[i:min(i+chunk, len(vars))]
+		// bounded memory: chunks of at most ~60000 (estimated) values
+		for i := 0; i < len(vars); {
+			if expired() {
+				r.NotExhaustive("deadline (or this part's share of it) during corpus enumeration")
+				complete = false
+				break files
+			}
+			j, sum := i, 0
+			var part []*Tree
+			for j < len(vars) && (len(part) == 0 || (sum+vars[j].est <= 60000 && len(part) < 16)) {
+				part = append(part, vars[j].t)
+				sum += vars[j].est
+				j++
+			}
 			w.EvalTrees(part, false, o.MaxValues)
 			for _, t := range part {
 				fn(t)
 				t.Out, t.Batch = nil, nil
 			}
+			i = j
 		}
 		r.Count("corpus_files_done", 1)
 	}
